@@ -6,6 +6,7 @@ tree of the repository under test, applying a small mechanical AST rewrite:
   2. a / b           -> _sx_div(a, b)
   3. imports of numpy, math, random, thewalrus, multimethod -> symx.shims.*
   4. a module-level `isinstance` that knows symbolic scalars
+  5. float(x)        -> _sx_float(x)   (identity on symbolic reals)
 Nothing else is changed; no statement is removed or reordered.
 """
 import ast
@@ -28,7 +29,7 @@ SHIMS = {
 STATS = {"modules": 0, "pow_sites": 0, "div_sites": 0, "imports_redirected": 0, "files": {}}
 
 PRELUDE = (
-    "from symx.rt import isinstance_ as isinstance, pow_ as _sx_pow, div_ as _sx_div\n"
+    "from symx.rt import isinstance_ as isinstance, pow_ as _sx_pow, div_ as _sx_div, float_ as _sx_float\n"
 )
 
 
@@ -45,6 +46,13 @@ class _Rewriter(ast.NodeTransformer):
             return ast.copy_location(
                 ast.Call(ast.Name("_sx_div", ast.Load()), [node.left, node.right], []), node
             )
+        return node
+
+    def visit_Call(self, node):
+        self.generic_visit(node)
+        if isinstance(node.func, ast.Name) and node.func.id == "float" and len(node.args) == 1 and not node.keywords:
+            STATS["float_sites"] = STATS.get("float_sites", 0) + 1
+            node.func = ast.copy_location(ast.Name("_sx_float", ast.Load()), node.func)
         return node
 
     def visit_AugAssign(self, node):
